@@ -379,7 +379,17 @@ async def process_resource_causes(
             and operator_paused is not None and operator_paused.is_on()):
         consistency_is_achieved = False
     if consistency_is_required and not consistency_is_achieved:
-        return list(spawning_delays), False  # exit to PATCHing and/or re-iterating over new events.
+        # Exit to PATCHing and/or re-iterating over new events. But the accumulated patch is not
+        # guaranteed to bring a new event (it can change nothing: e.g. a repeated on-event result or
+        # transformation functions with nothing to transform), and the awaited event can be lost:
+        # so, come back when the waiting time is over, the same as for the delayed handlers
+        # (the sleep is skipped if the patch does change the object, or interrupted by new events).
+        # Not while paused: then nothing is to be written, and the un-pausing brings a fresh listing.
+        waiting_delays: Collection[float] = []
+        if (consistency_time is not None
+                and not (operator_paused is not None and operator_paused.is_on())):
+            waiting_delays = [max(0., consistency_time - asyncio.get_running_loop().time())]
+        return list(spawning_delays) + list(waiting_delays), False
 
     # Now, the consistency is either pre-proven (by receiving or not expecting any resource version)
     # or implied (by exceeding the allowed consistency-waiting timeout while getting no new events).
